@@ -114,7 +114,7 @@ CHECKS = {
              "and that coincident impulses lose one. Tied to the code by bit-exact comparison of the windows the real stepForward computes, delivery "
              "runs against a real in-memory database (instance ids 0, 1, 2: id 0 is legal), an in-process pipeline of the real query/handleEvent/prune/TwoBody.propagate code, "
              "and impulses driven through a real Scenario (two targets, several impulses in different steps) against Kepler arcs joined by the impulses."
-             " Two manoeuvre events of one target inside one step, an impulse right after an expired finite burn, and an impulse on a target that joins in the same step are run through real scenarios, each against the same scenario without that impulse. The scenario-time/Julian-date conversions used by the windows are translated from /repo on every run and proved equal to the model (RV/Bridge/Time.lean).",
+             " Two manoeuvre events of one target inside one step, an impulse right after an expired finite burn, and an impulse on a target that joins in the same step are run through real scenarios, each against the same scenario without that impulse. The scenario-time/Julian-date conversions used by the windows are translated from /repo on every run and proved equal to the model (RV/Bridge/Time.lean). Agent.prunePropagateEvents is translated from /repo on every run (RV/Generated/Agents.lean) and proved to be the model's repaired prune rule on impulses, with a membership characterisation for events with a duration (RV/Bridge/Agents.lean).",
         note=BASE_TB + "scipy's event location is modelled by its documented rule and exercised on every impulse case; strict monotonicity of "
              "datetimeToJulianDate is a hypothesis here (C05) and checked bit-exactly on every generated window; events at/before the start are outside the property.",
         technique="Lean 4 proof (tiling over a monotone map, induction over steps) + bit-exact window correspondence + differential delivery/impulse pipeline on the real code",
@@ -176,7 +176,7 @@ CHECKS = {
              "slot for burns not under way does. Tied to the code by comparing, call by call, every thrust callback (burn, time, installed/removed) and the "
              "slot at the end of the call of the real SpecialPerturbations/TwoBody propagators (real event classes, real prune rule, one or two burns per agent) "
              "with the model's timeline, and the final state with an independent coast/thrust/coast(/thrust/coast) integration (the property itself)."
-             " The reference trajectory takes the natural forces from the model and evaluates the thrust itself from its documented definition (NTW axes from r and v), with magnitudes and components that vary from case to case; burns enter through the real data-event handleEvent; a coasting companion shares the dynamics object.",
+             " The reference trajectory takes the natural forces from the model and evaluates the thrust itself from its documented definition (NTW axes from r and v), with magnitudes and components that vary from case to case; burns enter through the real data-event handleEvent; a coasting companion shares the dynamics object. The queue prune that decides which burns reach the propagator (Agent.prunePropagateEvents) is translated from /repo on every run and characterised in RV/Bridge/Agents.lean (a burn is kept exactly while the agent's time is before its end, once).",
         note=BASE_TB + "scipy's terminal-event location is the abstract integrator (an event fires at its root); trajectory equality is numerical, against a reference "
              "integration with the same tolerances; boundaries within 1e-9 s before the end are excluded (the callback's tolerance).",
         technique="Lean 4 proof (per-call overlap + telescoping) + differential correspondence of callback times + reference-trajectory oracle",
